@@ -37,3 +37,103 @@ def check(assertions, timeout_ms):
     if first in ("unsat", "sat"):
         return first, dt
     return "unknown", dt
+
+
+# ---- float64 goals: cvc5 is the primary back end (z3's bit-blaster is an order of magnitude slower on binary64 products) ----
+class ConstModel:
+    """model given as values of constants; evaluates terms by substitution + simplification"""
+
+    def __init__(self, pairs):
+        self.pairs = pairs
+
+    def eval(self, e, model_completion=True):
+        if not self.pairs:
+            return z3.simplify(e)
+        return z3.simplify(z3.substitute(e, *self.pairs))
+
+
+def _parse_fp(tok, sort):
+    import re
+    import struct
+
+    tok = tok.strip()
+    m = re.match(r"\(fp\s+(#[bx][0-9a-fA-F]+)\s+(#[bx][0-9a-fA-F]+)\s+(#[bx][0-9a-fA-F]+)\s*\)", tok)
+    if m:
+        def bits(t, n):
+            v = int(t[2:], 2 if t[1] == "b" else 16)
+            return format(v, "0%db" % n)
+
+        word = bits(m.group(1), 1) + bits(m.group(2), sort.ebits()) + bits(m.group(3), sort.sbits() - 1)
+        if sort.ebits() == 11 and sort.sbits() == 53:
+            x = struct.unpack(">d", int(word, 2).to_bytes(8, "big"))[0]
+            if x != x:
+                return z3.fpNaN(sort)
+            if x in (float("inf"), float("-inf")):
+                return z3.fpInfinity(sort, x < 0)
+            if x == 0:
+                return z3.fpZero(sort, word[0] == "1")
+            return z3.FPVal(x, sort)
+        return None
+    m = re.match(r"\(_\s+([+-]zero|[+-]oo|NaN)\s+\d+\s+\d+\)", tok)
+    if m:
+        k = m.group(1)
+        return {"+zero": z3.fpZero(sort, False), "-zero": z3.fpZero(sort, True), "+oo": z3.fpInfinity(sort, False),
+                "-oo": z3.fpInfinity(sort, True), "NaN": z3.fpNaN(sort)}[k]
+    return None
+
+
+def check_fp(assertions, timeout_ms, consts=()):
+    """QF_UFFP goal -> ('unsat'|'sat'|'unknown', model or None, seconds); the model gives the float constants `consts`"""
+    s = z3.Solver()
+    s.add(*assertions)
+    consts = [c for c in consts if z3.is_fp(c)]
+    text = "(set-option :produce-models true)\n(set-logic ALL)\n" + s.to_smt2()
+    for c in consts:
+        text += "(get-value (%s))\n" % c.sexpr()
+    t = time.time()
+    fd, path = tempfile.mkstemp(suffix=".smt2", dir=os.environ.get("VF_SCRATCH", None))
+    try:
+        with os.fdopen(fd, "w") as f:
+            f.write(text)
+        try:
+            out = subprocess.run(["cvc5", "--tlimit=%d" % timeout_ms, path], capture_output=True, text=True,
+                                 timeout=timeout_ms / 1000 + 15).stdout
+        except (subprocess.TimeoutExpired, FileNotFoundError):
+            return "unknown", None, time.time() - t
+    finally:
+        try:
+            os.unlink(path)
+        except OSError:
+            pass
+    dt = time.time() - t
+    lines = out.strip().splitlines()
+    first = lines[0].strip() if lines else ""
+    if first == "unsat":
+        return "unsat", None, dt
+    if first != "sat" or any("(error" in ln for ln in lines[:1]):
+        return "unknown", None, dt
+    pairs = []
+    body = "\n".join(lines[1:])
+    for c in consts:
+        name = c.sexpr()
+        i = body.find("((" + name + " ")
+        if i < 0:
+            return "unknown", None, dt
+        j = i + len(name) + 3
+        depth, k = 0, j
+        while k < len(body):
+            if body[k] == "(":
+                depth += 1
+            elif body[k] == ")":
+                if depth == 0:
+                    break
+                depth -= 1
+                if depth == 0:
+                    k += 1
+                    break
+            k += 1
+        val = _parse_fp(body[j:k], c.sort())
+        if val is None:
+            return "unknown", None, dt
+        pairs.append((c, val))
+    return "sat", ConstModel(pairs), dt
